@@ -188,6 +188,59 @@ def rule_cm_window(check, rules):
                             'AttributeError leaves __enter__ after a deletion, and __exit__ is not invoked for a failed __enter__: the deleted '
                             'attribute is lost', key=key,
                             witness='a __signature__ descriptor raising RuntimeError on read: f.__wrapped__ is gone after sigtools.signature(f) raises')
+    # ---- the restoring call on the exception edge of __enter__ must be a call __exit__ can accept
+    pos_x, var_x, kwo_x, kw_x = ex.params()
+    ndef = len(ex.node.args.defaults)
+    required = len(pos_x) - 1 - ndef
+    for node in _own_nodes(en.node):
+        if isinstance(node, ast.Call) and isinstance(node.func, ast.Attribute) and node.func.attr == '__exit__' \
+                and isinstance(node.func.value, ast.Name) and node.func.value.id == selfname:
+            key = '%s|exit-call-binds|%s' % (en.key, norm(node))
+            if any(isinstance(a, ast.Starred) for a in node.args) or any(k.arg is None for k in node.keywords):
+                check.holds(rules['restore'], site_of(en, node), 'restoring call passes star arguments', key=key, nontrivial=False)
+                continue
+            given = len(node.args) + len([k for k in node.keywords if k.arg in pos_x])
+            if given < required or (len(node.args) > len(pos_x) - 1 and not var_x):
+                check.violation(rules['restore'], site_of(en, node), '__enter__ restores through %s, but __exit__ takes %d required argument(s) '
+                                'besides self: the call raises TypeError and nothing that was already deleted is put back'
+                                % (norm(node), required), key=key,
+                                witness='a __signature__ descriptor raising on read inside __enter__: f.__wrapped__ is lost')
+            else:
+                check.holds(rules['restore'], site_of(en, node), 'the restoring call %s binds to __exit__%s' % (norm(node), norm(ex.node.args)), key=key)
+    # ---- probes of the receiver are EAFP (C17.R4): the package itself removes these attributes temporarily in other
+    # threads, so a hasattr()/getattr() pair is a check-then-act race; the read and the delete must sit under a handler
+    # that absorbs AttributeError
+    if rules.get('probe'):
+        recvs = set(norm(wr[1]) for wr in foreign_attr_writes(en) if wr[3] in ('delattr', 'del'))
+        nprobe = 0
+        for node in _own_nodes(en.node):
+            if not (isinstance(node, ast.Call) and isinstance(node.func, ast.Name) and node.func.id in ('getattr', 'delattr') and node.args
+                    and norm(node.args[0]) in recvs):
+                continue
+            if node.func.id == 'getattr' and len(node.args) + len(node.keywords) >= 3:
+                continue        # defaulted form cannot raise AttributeError
+            nprobe += 1
+            absorbed = False
+            t = node
+            while t is not None and t is not en.node:
+                par = getattr(t, '_parent', None)
+                if isinstance(par, ast.Try) and t in par.body:
+                    for h in par.handlers:
+                        names = [norm(x) for x in (h.type.elts if isinstance(h.type, ast.Tuple) else [h.type])] if h.type is not None else ['BaseException']
+                        if any(x in ('AttributeError', 'Exception', 'BaseException') for x in names) and \
+                                not any(isinstance(s_, ast.Raise) for s_ in ast.walk(h)):
+                            absorbed = True
+                t = par
+            key = '%s|probe|%s' % (en.key, norm(node))
+            if absorbed:
+                check.holds(rules['probe'], site_of(en, node), '%s sits under a handler that absorbs AttributeError' % norm(node), key=key)
+            else:
+                check.violation(rules['probe'], site_of(en, node), '%s on the inspected callable is not under a handler that absorbs AttributeError: '
+                                'another thread inside its own window may have removed the attribute after any earlier hasattr()/getattr() '
+                                'check, and the AttributeError escapes retrieval' % norm(node), key=key,
+                                witness='two threads in sigtools.signature(f), f decorated with functools.wraps: one is preempted between '
+                                        'hasattr and getattr')
+        check.floor(rules['probe'], 'attribute probes of the window receiver in __enter__', nprobe, 2)
     # ---- __exit__ restores every saved key
     it2 = Interp(repo, Policy(try_forks=False))
     ps2 = it2.run(ex)
